@@ -56,9 +56,39 @@ theorem kchangeToNormal_abs {k : KSt} (h : KeyOk k) (now : Nat) :
   | none => rfl
   | some n => exact kchangeActive_abs h n.id now
 
+/-- where every record carries its key, the guards on the stored record say what the first guard says -/
+theorem knamesActive_keyOk {k : KSt} (h : KeyOk k) {id : String} (hn : knamesActive k id = true) :
+    id = k.active.id := by
+  unfold knamesActive at hn
+  cases hf : kfind k id with
+  | none => simp [hf] at hn
+  | some st =>
+    have hst : id = st.id := h (id, st) (kfindL_some hf)
+    simp only [hf, Bool.or_eq_true, decide_eq_true_eq] at hn
+    rcases hn with hn | hn
+    · rw [hst, hn]
+    · cases hc : kfind k k.active.id with
+      | none => simp [hc] at hn
+      | some cur =>
+        have hcur : k.active.id = cur.id := h (k.active.id, cur) (kfindL_some hc)
+        simp only [hc, decide_eq_true_eq] at hn
+        rw [hst, hcur, hn]
+
+/-- … so there `deleteMode` decides as it did before 00bc77e / c078347 -/
+theorem kdeleteMode_unfixed {k : KSt} (h : KeyOk k) (id : String) (am : Bool) (d : DOpts) :
+    kdeleteMode k id am d = kdeleteModeUnfixed k id am d := by
+  unfold kdeleteMode kdeleteModeUnfixed
+  by_cases ha : id = k.active.id
+  · rw [if_pos ha, if_pos ha]
+  · rw [if_neg ha, if_neg ha]
+    cases hn : knamesActive k id with
+    | false => simp
+    | true => exact absurd (knamesActive_keyOk h hn) ha
+
 theorem kdeleteMode_abs {k : KSt} (h : KeyOk k) (id : String) (am : Bool) (d : DOpts) :
     lift (kdeleteMode k id am d) = deleteMode k.abs id am d := by
-  unfold kdeleteMode deleteMode
+  rw [kdeleteMode_unfixed h]
+  unfold kdeleteModeUnfixed kdeleteBody deleteMode
   rw [kfind_abs h]
   by_cases ha : id = k.active.id
   · have : id = k.abs.active.id := ha
@@ -250,8 +280,8 @@ theorem kdiff_delete {k : KSt} (hk : KeyOk k) (id : String) (am : Bool) (d : DOp
     diff1 (kfind k id) (kfind (kdeleteMode k id am d).1 id) = emitDelete k.abs id am d := by
   have hres : (deleteMode k.abs id am d).2 = (kdeleteMode k id am d).2 := by rw [← kdeleteMode_abs hk]; rfl
   unfold emitDelete
-  rw [hres, ← kfind_abs hk]
-  unfold kdeleteMode
+  rw [hres, ← kfind_abs hk, kdeleteMode_unfixed hk]
+  unfold kdeleteModeUnfixed kdeleteBody
   by_cases ha : id = k.active.id
   · rw [if_pos ha]
     simp only [diff1_self]
@@ -378,16 +408,18 @@ theorem kupdateMode_keyOk {k : KSt} (h : KeyOk k) (m : Mode) (mask : Option Mask
 
 theorem kdeleteMode_keyOk {k : KSt} (h : KeyOk k) (id : String) (am : Bool) (d : DOpts) :
     KeyOk (kdeleteMode k id am d).1 := by
-  unfold kdeleteMode
+  unfold kdeleteMode kdeleteBody
   split
   · exact h
   · split
-    · split <;> exact h
+    · exact h
     · split
-      · exact h
+      · split <;> exact h
       · split
         · exact h
-        · exact recsOk_kerase h id
+        · split
+          · exact h
+          · exact recsOk_kerase h id
 
 theorem kstep_keyOk {k : KSt} (h : KeyOk k) (op : Op) (ht : op.Tame) : KeyOk (kstep k op).1 := by
   cases op with
@@ -470,16 +502,18 @@ theorem kupdateMode_keys {k : KSt} (h : KeysNodup k) (m : Mode) (mask : Option M
 
 theorem kdeleteMode_keys {k : KSt} (h : KeysNodup k) (id : String) (am : Bool) (d : DOpts) :
     KeysNodup (kdeleteMode k id am d).1 := by
-  unfold kdeleteMode
+  unfold kdeleteMode kdeleteBody
   split
   · exact h
   · split
-    · split <;> exact h
+    · exact h
     · split
-      · exact h
+      · split <;> exact h
       · split
         · exact h
-        · exact keys_kerase id _ h
+        · split
+          · exact h
+          · exact keys_kerase id _ h
 
 theorem kchangeActive_keys {k : KSt} (h : KeysNodup k) (id : String) (now : Nat) : KeysNodup (kchangeActive k id now).1 := by
   unfold kchangeActive
